@@ -39,7 +39,7 @@ ASSUMPTIONS = [
     "in the summed squares is not judged",
     "the layout of the Hankel matrix itself (which lag sits where) is C12's subject: the block estimates are recomputed "
     "with the same lag layout lag(i,j) = i+j+1 and uniform weight 1/Nb; slack 2 max|H|/N covers 1/N versus 1/(N-1)",
-    "record lengths are chosen with N mod nb = 1 so that the block length N//nb is unambiguous",
+    "record lengths are chosen with N mod nb = 1 so that the block length N//nb is unambiguous; the data factor is additionally judged on a record with N mod nb = nb-1, where either contiguous partition (nb blocks of N//nb, or block lengths differing by one) is accepted provided every block estimate is normalised by its own length",
 ]
 
 DT = 0.01
@@ -180,8 +180,11 @@ def fd_expected(ssi, H, br, n, T, Fn0, Lam0, orders, t):
 
 # ---- independent block-bootstrap factor -----------------------------------------------------------
 
-def block_moments(Y, Yref, br, nb):
-    """Full and block-wise moment matrices with the Hankel layout lag(i,j) = i+j+1, by explicit loops over block rows/columns."""
+def block_moments(Y, Yref, br, nb, partition="floor"):
+    """Full and block-wise moment matrices with the Hankel layout lag(i,j) = i+j+1, by explicit loops over block rows/columns.
+    Every block estimate is a properly normalised average over its own contiguous samples. Two ways of cutting the N-1 products
+    into nb contiguous blocks are admissible when N is not a multiple of nb: 'floor' (nb blocks of N//nb, remainder unused) and
+    'even-split' (block lengths differing by at most one, nothing unused)."""
     l, nd = Y.shape
     r = Yref.shape[0]
     p, q = br, br + 1
@@ -199,7 +202,13 @@ def block_moments(Y, Yref, br, nb):
         return M
 
     full = moment(0, ncols, 1.0 / ncols)
-    blocks = [moment(k * Nb, (k + 1) * Nb, 1.0 / Nb) for k in range(nb)]
+    if partition == "floor":
+        ranges = [(k * Nb, min((k + 1) * Nb, ncols)) for k in range(nb)]
+    else:
+        sizes = [ncols // nb + (1 if k < ncols % nb else 0) for k in range(nb)]
+        starts = np.concatenate([[0], np.cumsum(sizes)])
+        ranges = [(int(starts[k]), int(starts[k + 1])) for k in range(nb)]
+    blocks = [moment(a, b, 1.0 / (b - a)) for a, b in ranges]
     return full, blocks, N, Nb
 
 
@@ -218,6 +227,11 @@ def judge_factor(t, case, T, Y, Yref, br, nb):
         ref = np.column_stack([(b * scale - full).reshape(-1, order=order) for b in blocks])
         cand[(order, scale == 1.0)] = float(np.abs(S - ref).max())
     err = cand[("F", True)]
+    if err > tol and (N - 1) % nb:
+        # the other admissible way of cutting the record into nb contiguous, properly normalised blocks
+        _, blocks2, _, _ = block_moments(Y, Yref, br, nb, "even-split")
+        ref2 = np.column_stack([(b - full).reshape(-1, order="F") for b in blocks2])
+        err = min(err, float(np.abs(S - ref2).max()))
     t.err("factor_abs_over_maxH", err / np.abs(full).max())
     spread = max(float(np.abs(b - full).max()) for b in blocks)
     t.validated += 1
@@ -309,6 +323,20 @@ def run_case(seed, c):
         factor_ok = True
         if ncol > 1:      # (iii) once per (layout, nb)
             factor_ok = judge_factor(t, case, Tfull, Y, Yref, br, nb)
+            if nb >= 3:
+                # the same on a record whose length leaves a remainder: N mod nb = nb - 1 (block partition not unique;
+                # whatever partition is used, every block estimate must be normalised by its own length)
+                N0 = Y.shape[1] - 2 * br - 1
+                d = (N0 - (nb - 1)) % nb
+                Yt = data[:data.shape[0] - d].T
+                Yt_ref = Yt[list(refs), :] if r < l else Yt
+                t.evaluations += 1
+                try:
+                    _, Tt = ssi.build_hank(Yt, Yt_ref, br, "cov_mm", calc_unc=True, nb=nb)
+                    factor_ok = judge_factor(t, dict(case, truncated_by=d), Tt, Yt, Yt_ref, br, nb) and factor_ok
+                    t.outcomes["factor:remainder-record-judged"] += 1
+                except Exception as e:
+                    t.violation(f"factor:raises:{type(e).__name__}", f"build_hank(calc_unc=True) raised {e!r} on a record with N mod nb = {nb - 1}", case)
         if Tfull is None or np.shape(Tfull) != (np.size(H), nb) or not np.all(np.isfinite(Tfull)):
             if ncol == 1:
                 t.not_judged += 1
@@ -474,7 +502,7 @@ def explore(ctx):
     ctx.bounds["infeasible_lattice_points (H too small for order n)"] = infeasible
     items.sort(key=lambda it: -(it[5][0] * it[4] ** 2 * (it[3] + 1) ** 2 * it[1] * len(it[2])))
     ctx.pmap(_slice, items, chunksize=1)
-    ctx.require("exact:judged", "data:judged", "factor:holds", "factor:vec-order-decidable", "additivity:holds", "class:holds",
+    ctx.require("exact:judged", "data:judged", "factor:holds", "factor:remainder-record-judged", "factor:vec-order-decidable", "additivity:holds", "class:holds",
                 "order-below-ordmax-judged", "columns:1", "columns:20")
 
 
